@@ -68,6 +68,12 @@ class Lattice(object):
         return ptype == cls or self.strict_sub(cls, ptype)
 
 
+def python_spelling(name):
+    """Parameters are declared in python spelling and called by their convention
+    alias (extending_yaql.rst, "Naming conventions": arg_name -> argName)."""
+    return ''.join('_' + ch.lower() if ch.isupper() else ch for ch in name)
+
+
 def bind(params, args, kwargs, relaxed=()):
     """R3: can the overload be called by the given syntax?  Python-like binding
     with hidden parameters removed.  -> [(key, parameter, item)] or None."""
@@ -113,6 +119,8 @@ def bind(params, args, kwargs, relaxed=()):
     for k, v in kwargs.items():
         if varkw is None:
             return None                  # keyword name that no parameter has
+        if any(python_spelling(p[0]) == k for p in params):
+            return None                  # ... nor can **kwargs carry the python spelling of a declared parameter
         mapping.append((k, varkw, v))
     return mapping
 
